@@ -54,7 +54,9 @@ type opCmd struct {
 	Target  any
 	Timeout int
 	Ref     gen.Ref // for respond
-	Done    chan opResult
+	// Important: the process option ImportantDelivery is switched on around the operation
+	Important bool
+	Done      chan opResult
 }
 
 type opResult struct {
@@ -235,7 +237,17 @@ func (o *observer) listed(k relKey) (bool, error) {
 func execOp(p *actors.Probe, m opCmd) opResult {
 	t0 := time.Now()
 	var res opResult
+	if m.Important {
+		if err := p.SetImportantDelivery(true); err != nil {
+			return opResult{Err: fmt.Errorf("SetImportantDelivery: %w", err)}
+		}
+		defer p.SetImportantDelivery(false)
+	}
 	switch m.Op.Kind {
+	case "sendimportant":
+		res.Err = p.SendImportant(m.Target, "hello-important")
+	case "callimportant":
+		res.Value, res.Err = p.CallImportant(m.Target, "ping-important")
 	case "link":
 		switch t := m.Target.(type) {
 		case gen.Event:
